@@ -156,7 +156,13 @@ func (c *checker) strLexeme(s string, route int, family string, toCoq bool) {
 	lex := whole
 	if len(whole) >= len(pre)+len(suf) && bytes.HasPrefix(whole, []byte(pre)) && bytes.HasSuffix(whole, []byte(suf)) {
 		lex = whole[len(pre) : len(whole)-len(suf)]
+	} else if sp := stringSpans(whole); len(sp) > len(stringSpans([]byte(pre))) {
+		// another layout of the same text (white space around delimiters): the lexeme is the k-th string lexeme,
+		// k = the number of string lexemes the expected prefix holds
+		k := len(stringSpans([]byte(pre)))
+		lex = whole[sp[k][0]:sp[k][1]]
 	}
+	lex = bytes.TrimSpace(lex) // white space next to a delimiter is layout, not part of the lexeme
 	var back string
 	decoded := len(lex) > 0 && lex[0] == '"' && json.Unmarshal(lex, &back) == nil
 	image := coerceUTF8(s)
@@ -272,4 +278,26 @@ func (c *checker) strFamily(rng *lib.Rng, thorough bool) {
 		}
 		c.lexemeTie(lex)
 	}
+}
+
+// stringSpans: the [start, end) positions of the string lexemes of a text (a quote up to the next unescaped quote)
+func stringSpans(b []byte) (out [][2]int) {
+	for i := 0; i < len(b); i++ {
+		if b[i] != '"' {
+			continue
+		}
+		j := i + 1
+		for j < len(b) && b[j] != '"' {
+			if b[j] == '\\' {
+				j++
+			}
+			j++
+		}
+		if j >= len(b) {
+			return out
+		}
+		out = append(out, [2]int{i, j + 1})
+		i = j
+	}
+	return out
 }
